@@ -6,6 +6,7 @@ import TarsModel.Driver.Common
 import TarsModel.Model.Wire
 import TarsModel.Model.SkipIter
 import TarsModel.Model.Tup
+import TarsModel.Model.TraceKey
 
 namespace Tars.Driver.Wire
 open Tars Tars.Driver
@@ -126,6 +127,23 @@ def handle (ws : List String) : String :=
     | some c, some data => showTup (Tup.decodeV c [] (Reader.mk0 data))
     | _, _ => "bad-op"
   | ["tupvariant"] => if Tup.countChecked then "checked" else "asfound"
+  | ["tracetype", dflt, hex] =>
+    -- trace.initType(tid) with GetTraceParamMaxLen() = dflt
+    match parseNat? dflt, hexIn (if hex = "-" then "" else hex) with
+    | some d, some tid =>
+      match TraceKey.initType d tid with
+      | .ok (t, m) => s!"ok {t} {m}"
+      | .error e => "err " ++ errName e
+    | _, _ => "bad-op"
+  | ["tracekey", dflt, hex] =>
+    -- SpanContext.Init(traceKey)
+    match parseNat? dflt, hexIn (if hex = "-" then "" else hex) with
+    | some d, some key =>
+      match TraceKey.spanInit d key with
+      | .ok (some (t, m)) => s!"ok {t} {m}"
+      | .ok none => "reset"
+      | .error e => "err " ++ errName e
+    | _, _ => "bad-op"
   | ["widen", bits] =>
     match parseNat? bits with
     | some b => toString (widenF32 b)
